@@ -7,6 +7,8 @@ struct AssignmentTracker<'a> {
     out: HashSet<&'a str>,
     nested_out: Option<HashSet<String>>,
     assigned: Vec<HashSet<&'a str>>,
+    #[cfg(feature = "multi_template")]
+    for_closure: bool,
 }
 
 impl<'a> AssignmentTracker<'a> {
@@ -42,6 +44,8 @@ pub fn find_macro_closure<'a>(m: &ast::Macro<'a>) -> HashSet<&'a str> {
         out: HashSet::new(),
         nested_out: None,
         assigned: vec![Default::default()],
+        #[cfg(feature = "multi_template")]
+        for_closure: true,
     };
     tracker_visit_macro(m, &mut state, false);
     state.out
@@ -57,6 +61,8 @@ pub fn find_undeclared(t: &ast::Stmt<'_>, track_nested: bool) -> HashSet<String>
             None
         },
         assigned: vec![Default::default()],
+        #[cfg(feature = "multi_template")]
+        for_closure: false,
     };
     track_walk(t, &mut state);
     if let Some(nested) = state.nested_out {
@@ -188,7 +194,16 @@ fn tracker_visit_expr<'a>(expr: &ast::Expr<'a>, state: &mut AssignmentTracker<'a
             tracker_visit_expr_opt(&slice.step, state);
         }
         ast::Expr::Call(expr) => {
-            tracker_visit_expr(&expr.expr, state);
+            match expr.identify_call() {
+                // `super(...)` and `self.block(...)` are call syntax, not lookups of
+                // `super` and `self`; a block call does not evaluate arguments.
+                // (macro closures keep enclosing the two names as they always did.)
+                #[cfg(feature = "multi_template")]
+                ast::CallType::Function("super") if !state.for_closure => {}
+                #[cfg(feature = "multi_template")]
+                ast::CallType::Block(_) if !state.for_closure => return,
+                _ => tracker_visit_expr(&expr.expr, state),
+            }
             expr.args
                 .iter()
                 .for_each(|x| tracker_visit_callarg(x, state));
@@ -216,17 +231,18 @@ fn track_assign<'a>(expr: &ast::Expr<'a>, state: &mut AssignmentTracker<'a>) {
 fn track_walk<'a>(node: &ast::Stmt<'a>, state: &mut AssignmentTracker<'a>) {
     match node {
         ast::Stmt::Template(stmt) => {
-            state.assign("self");
             stmt.children.iter().for_each(|x| track_walk(x, state));
         }
         ast::Stmt::EmitExpr(expr) => tracker_visit_expr(&expr.expr, state),
         ast::Stmt::EmitRaw(_) => {}
         ast::Stmt::ForLoop(stmt) => {
-            state.push();
-            state.assign("loop");
+            // the iterable and the filter are evaluated where `loop` is not
+            // this loop's object yet
             tracker_visit_expr(&stmt.iter, state);
+            state.push();
             track_assign(&stmt.target, state);
             tracker_visit_expr_opt(&stmt.filter_expr, state);
+            state.assign("loop");
             stmt.body.iter().for_each(|x| track_walk(x, state));
             state.pop();
             state.push();
@@ -277,7 +293,6 @@ fn track_walk<'a>(node: &ast::Stmt<'a>, state: &mut AssignmentTracker<'a>) {
         #[cfg(feature = "multi_template")]
         ast::Stmt::Block(stmt) => {
             state.push();
-            state.assign("super");
             stmt.body.iter().for_each(|x| track_walk(x, state));
             state.pop();
         }
@@ -293,10 +308,12 @@ fn track_walk<'a>(node: &ast::Stmt<'a>, state: &mut AssignmentTracker<'a>) {
         }),
         #[cfg(feature = "macros")]
         ast::Stmt::Macro(stmt) => {
-            state.assign(stmt.name);
+            // a macro that refers to itself encloses its own name when it is
+            // declared, which looks the name up before the macro is stored.
             state.push();
             tracker_visit_macro(stmt, state, true);
             state.pop();
+            state.assign(stmt.name);
         }
         #[cfg(feature = "macros")]
         ast::Stmt::CallBlock(stmt) => {
